@@ -2489,7 +2489,11 @@ static void Produce_Code(void) {
             /* Includefile? */
             Found = True;
             if (Memo("INCLUDE")) {
+                /* like a macro call: a label on the line before still belongs
+                   to the first statement of the included text */
+
                 ExpandINCLUDE();
+                ResetLastLabel = False;
             } else {
                 Found = False;
             }
